@@ -1,5 +1,5 @@
 """C20: a symlink node has its own tree position and forwards every other attribute to its target."""
-from anytree import Node, SymlinkNode
+from anytree import LightNodeMixin, Node, SymlinkNode
 
 from oracle import forest as F
 from vlib.driver import nontrivial
@@ -49,6 +49,30 @@ def build(n, targets, pv, kwargs_on=None, kwargs_val=None, attr=None):
         else:
             nodes.append(SymlinkNode(nodes[targets[i]], parent=par))
     return nodes
+
+
+class RefusingTarget(Node):
+    """a target with a read-only property"""
+
+    def __init__(self):
+        Node.__init__(self, "rt")
+
+    @property
+    def locked(self):
+        return "fixed"
+
+
+class SlotTarget(LightNodeMixin):
+    """a target without __dict__: unknown attributes cannot be set"""
+
+    __slots__ = ("a",)
+
+
+def assign2(obj, attr, value):
+    if attr == "locked":
+        obj.locked = value
+    else:
+        obj.extra = value
 
 
 def assign(obj, attr, value):
@@ -142,6 +166,26 @@ def forward_body(cfg):
         assign(nodes[w], "lst", second)
         if getattr(nodes[ft], "lst", None) is not second:
             return dict(info, why="assignment of an equal but distinct object through node %d was dropped" % w)
+    # a target that refuses the attribute (read-only property / __slots__): the assignment through the link fails
+    # like the direct one; nothing is stored on the link and the name stays unreadable through it
+    for tcls in (RefusingTarget, SlotTarget):
+        t = tcls()
+        link = SymlinkNode(t)
+        for name in ("locked", "extra"):
+            try:
+                assign2(t, name, 5)
+                direct = "ok"
+            except AttributeError:
+                direct = "AttributeError"
+            try:
+                assign2(link, name, 6)
+                via = "ok"
+            except AttributeError:
+                via = "AttributeError"
+            if direct == "AttributeError" and via != "AttributeError":
+                return dict(info, why="assignment refused by the target succeeded through the link", target=tcls.__name__, attr=name)
+            if name in link.__dict__:
+                return dict(info, why="attribute stored on the link itself", target=tcls.__name__, attr=name)
     if real_map(nodes) != (parent, children):
         return dict(info, why="attribute traffic changed the structure")
     return True
